@@ -31,6 +31,7 @@ fn gen(seed: u64, idx: u64, _tier: Tier) -> Plan {
     plan.world.faults.c2s_drop = 0;
     plan.world.faults.s2c_drop = 0;
     plan.world.faults.c2s_phantom = 0;
+    plan.world.faults.c2s_truncate = 0;
     plan.world.rcv_cap = 4096;
     plan.server = Some(s);
     let clients = 1 + rng.below(64) as u32;
